@@ -83,6 +83,7 @@ SRC = ["a::Foo", "b::Bar"]; TGT = ["::x::T1", "crate::y::T2"]
 FORMS = [  # (source suffix, target, expected result kind or None=ok, mapping kind)
     ("", "::x::N", None), ("<A>", "::x::N<A>", None), ("<A, B>", "::x::N<B, ::q::Z<A>>", None), ("", "::x::N<::core::primitive::u8>", None), ("<A>", "::x::N", None), ("", "crate::z::N", None),
     ("", "x::N", "ExpectedAbsolutePath"), ("<A>", "self::N<A>", "ExpectedAbsolutePath"), ("<A>", "super::N<A>", "ExpectedAbsolutePath"),
+    ("", "crates::N", "ExpectedAbsolutePath"), ("<A>", "crate_utils::N<A>", "ExpectedAbsolutePath"), ("", "Crate::z::N", "ExpectedAbsolutePath"),       # look-alikes of `crate`
     ("<'a>", "::x::N", "InvalidFromType"), ("<::b::C>", "::x::N", "InvalidFromType"), ("<Vec<A>>", "::x::N", "InvalidFromType"), ("<A<B>>", "::x::N", "InvalidFromType"),
     ("<A>", "::x::N<(A, A)>", "InvalidToType"), ("<A>", "::x::N<'static>", "InvalidToType"), ("<A>", "::x::N<[A; 2]>", "InvalidToType"),
     ("(A, B)", "::x::N", "ExpectedAngleBracketGenerics"), ("<A>", "::x::N(A)", "ExpectedAngleBracketGenerics"),
